@@ -632,7 +632,17 @@ func main() {
 				distinct++
 				t = t.Add(time.Hour)
 			}
-			for _, tt := range []time.Time{time.Date(1, 1, 2, 0, 0, 1, 0, loc), time.Date(999, 12, 31, 23, 59, 59, 5, loc), time.Date(2000, 2, 29, 12, 0, 0, 0, loc), time.Date(9999, 12, 31, 23, 59, 59, 999, loc)} {
+			// sub-second parts on both sides of the Unix epoch and of the 32-bit second counters (a whole-second
+			// value is what goes out: the wall clock the argument shows, whatever its fraction and its sign)
+			fractions := []time.Time{}
+			for _, base := range []time.Time{time.Date(1, 1, 2, 0, 0, 1, 0, loc), time.Date(1582, 10, 14, 23, 59, 59, 0, loc), time.Date(1899, 12, 31, 23, 59, 59, 0, loc), time.Date(1901, 12, 13, 20, 45, 52, 0, loc),
+				time.Date(1955, 12, 31, 23, 59, 59, 0, loc), time.Date(1969, 7, 20, 20, 17, 40, 0, loc), time.Date(1969, 12, 31, 23, 59, 59, 0, loc), time.Date(1970, 1, 1, 0, 0, 0, 0, loc), time.Date(1970, 1, 1, 0, 0, 1, 0, loc),
+				time.Date(2038, 1, 19, 3, 14, 7, 0, loc), time.Date(2038, 1, 19, 3, 14, 8, 0, loc), time.Date(2106, 2, 7, 6, 28, 15, 0, loc), time.Date(2262, 4, 11, 23, 47, 16, 0, loc), time.Date(9999, 12, 31, 23, 59, 59, 0, loc)} {
+				for _, ns := range []int{0, 1, 999999, 1000000, 250000000, 500000000, 999000000, 999999999} {
+					fractions = append(fractions, base.Add(time.Duration(ns)))
+				}
+			}
+			for _, tt := range append(fractions, time.Date(1, 1, 2, 0, 0, 1, 0, loc), time.Date(999, 12, 31, 23, 59, 59, 5, loc), time.Date(2000, 2, 29, 12, 0, 0, 0, loc), time.Date(9999, 12, 31, 23, 59, 59, 999, loc)) {
 				a := spec.Args{ops.RawTime: tt, "DateTime": spec.CivilDT{Y: tt.Year(), M: int(tt.Month()), D: tt.Day(), H: tt.Hour(), Mi: tt.Minute(), S: tt.Second()}}
 				call(r, c, op, serial0, a, a, "")
 				distinct++
